@@ -415,8 +415,37 @@ func ValidationMatrix() *m.Design {
 			fld("fill", atMap(m.Prim(m.Int), &m.Validation{Max: fp(10)}), false), fld("code", atMap(m.UserRef("Code"), &m.Validation{MaxLen: ip(5)}), false)),
 		HTTP: &m.HTTPEndpoint{Routes: []m.Route{{Verb: "POST", Path: "/v/stock/{sku}"}}, Path: []m.Mapping{{Attr: "sku"}},
 			Query: []m.Mapping{{Attr: "batch"}, {Attr: "fill"}, {Attr: "code"}}}})
+	// a user type whose only validations sit on the elements of an array and on
+	// the keys and values of a map (nothing on its fields, nothing required)
+	arrOf := func(e *m.Attr) *m.Attr { return &m.Attr{Type: &m.Type{Kind: m.Array, Elem: e}} }
+	enumStr := func(vs ...string) *m.Attr {
+		a := m.Prim(m.String)
+		a.V = &m.Validation{}
+		for _, v := range vs {
+			a.V.Enum = append(a.V.Enum, value.Str(v))
+		}
+		return a
+	}
+	small := m.Prim(m.Int)
+	small.V = &m.Validation{Max: fp(9)}
+	key := m.Prim(m.String)
+	key.V = &m.Validation{MaxLen: ip(3)}
+	bag := &m.UserType{Name: "Bag", Var: "vbag", Attr: obj(fld("tags", arrOf(enumStr("red", "green", "blue")), false),
+		fld("counts", &m.Attr{Type: &m.Type{Kind: m.Map, Key: key, Val: small}}, false), fld("note", m.Prim(m.String), false))}
+	methods = append(methods, &m.Method{Name: "bagcheck", Payload: obj(fld("bag", m.UserRef("Bag"), false), fld("bags", arrOf(m.UserRef("Bag")), false)),
+		Result: obj(fld("bag", m.UserRef("Bag"), false)),
+		HTTP:   &m.HTTPEndpoint{Routes: []m.Route{{Verb: "POST", Path: "/v/bagcheck"}}}})
+	// required attributes that also declare a default, in the body and in a nested user type
+	modeDef, levelDef := value.Str("fast"), value.Int(3)
+	mode := m.Prim(m.String)
+	mode.Default = &modeDef
+	level := m.Prim(m.Int)
+	level.Default = &levelDef
+	step := &m.UserType{Name: "VStep", Var: "vvstep", Attr: obj(fld("name", m.Prim(m.String), true), fld("level", level, true))}
+	methods = append(methods, &m.Method{Name: "reqdef", Payload: obj(fld("mode", mode, true), fld("steps", arrOf(m.UserRef("VStep")), false), fld("note", m.Prim(m.String), false)),
+		HTTP: &m.HTTPEndpoint{Routes: []m.Route{{Verb: "POST", Path: "/v/reqdef"}}}})
 	return &m.Design{API: m.API{Name: "validations", Title: "Validation matrix"},
-		Types:    []*m.UserType{quantity, code},
+		Types:    []*m.UserType{quantity, code, bag, step},
 		Services: []*m.Service{{Name: "validations", HasHTTP: true, Methods: methods}},
 		Features: []string{"fixed-design:validation-matrix", "pattern", "format", "same-attribute-name-different-constraints", "validation-in-mapping", "validation-in-mapping-on-alias"}}
 }
